@@ -289,6 +289,21 @@ def declare(w):
         return z3.BoolVal(False)
 
     w.call_hooks[("coerce-pre", "dt")] = type_test
+
+    def isinstance_val(ex, v, names):
+        tests = {"NoneType": Val.is_VNone, "bool": Val.is_VBool, "float": Val.is_VFloat, "complex": Val.is_VComplex, "bytes": Val.is_VBytes, "str": Val.is_VStr,
+                 "list": Val.is_VList, "tuple": Val.is_VTuple, "dict": Val.is_VDict, "set": Val.is_VSet, "frozenset": Val.is_VFrozenSet, "Channel": Val.is_VChan}
+        alts = []
+        for n in names:
+            if n == "int":
+                alts += [Val.is_VInt(v.v), Val.is_VBool(v.v)]
+            elif n in tests:
+                alts.append(tests[n](v.v))
+            else:
+                raise Unsupported(f"isinstance of a dynamic value against {n}")
+        return z3.Or(*alts) if alts else z3.BoolVal(False)
+
+    w.call_hooks[("isinstance", "dt")] = isinstance_val
     core.COERCE_HOOKS[:] = [h for h in core.COERCE_HOOKS if getattr(h, "__name__", "") != "co_ser"]
     co.__name__ = "co_ser"
     core.COERCE_HOOKS.append(co)
